@@ -259,21 +259,47 @@ Qed.
 
 (* ---- the environment ------------------------------------------------------------------------------------------------ *)
 
+(* table facts about the environment as a whole *)
 Record env_ok (e : penv) : Prop := {
-  lowerK : forall c, inK c = true -> inK (pe_lower e c) = true;
-  lowerL : forall c, inL c = true -> inL (pe_lower e c) = true;
-  lower_idem : forall c, inK c = true -> pe_lower e (pe_lower e c) = pe_lower e c;
   lower_ascii : forall c, (c <? 128)%N = true -> pe_lower e c = ascii_lower c;
   schemes_ok : forall k, pe_valid_scheme e k = true -> key_chars k /\ lower e k = k;
   urn_ok : forall v s pth, pe_urn e v = Some (s, pth) -> valid_codepoints pth;
-  phone_ok : forall s n, pe_phone e s = Some n -> valid_codepoints n
+  phone_ok : forall s n, pe_phone e s = Some n -> forallb (fun c => (c <? 128)%N) n = true
 }.
+
+(* ... and the one fact asked of single characters — of the characters of the query text only: lower-casing keeps
+   the character in the grammar's key / letter class and is idempotent on it.  It fails for exactly the characters of
+   the known finding (U+13A0 ... whose lower-case forms the grammar's tables lack). *)
+Definition lowok (e : penv) (c : N) : Prop :=
+  (inK c = true -> inK (pe_lower e c) = true /\ pe_lower e (pe_lower e c) = pe_lower e c)
+  /\ (inL c = true -> inL (pe_lower e c) = true).
+
+Lemma ascii_lowok_table :
+  forallb (fun c => (negb (inK c) || (inK (ascii_lower c) && N.eqb (ascii_lower (ascii_lower c)) (ascii_lower c)))
+                    && (negb (inL c) || inL (ascii_lower c)) && (ascii_lower c <? 128)%N)
+          (map N.of_nat (seq 0 128)) = true.
+Proof. vm_compute. reflexivity. Qed.
 
 Section Accepted.
   Variable e : penv.
   Hypothesis Henv : env_ok e.
 
   Definition is_ascii (s : list N) : bool := forallb (fun c => (c <? 128)%N) s.
+
+  Lemma lowok_ascii c : (c <? 128)%N = true -> lowok e c.
+  Proof.
+    intros H. pose proof ascii_lowok_table as T. rewrite forallb_forall in T.
+    assert (Hin : In c (map N.of_nat (seq 0 128))).
+    { apply N.ltb_lt in H. apply in_map_iff. exists (N.to_nat c). split; [apply N2Nat.id|]. apply in_seq. lia. }
+    specialize (T c Hin). apply andb_prop in T. destruct T as [T T3]. apply andb_prop in T. destruct T as [T1 T2].
+    unfold lowok. rewrite (lower_ascii e Henv c H). rewrite (lower_ascii e Henv _ T3).
+    split; intros Hc; rewrite Hc in *; cbn [negb orb] in *.
+    - apply andb_prop in T1. destruct T1 as [A B]. apply N.eqb_eq in B. split; assumption.
+    - exact T2.
+  Qed.
+
+  Lemma lowok_ascii_str s : is_ascii s = true -> Forall (lowok e) s.
+  Proof. unfold is_ascii. rewrite forallb_forall. intros H. apply Forall_forall. intros c Hc. apply lowok_ascii. auto. Qed.
 
   Lemma lower_ascii_str s : is_ascii s = true -> lower e s = map ascii_lower s.
   Proof.
@@ -284,18 +310,20 @@ Section Accepted.
   Lemma lower_fixed s : is_ascii s = true -> text_eqb (map ascii_lower s) s = true -> lower e s = s.
   Proof. intros H1 H2. rewrite lower_ascii_str by exact H1. apply text_eqb_eq. exact H2. Qed.
 
-  Lemma lower_K s : forallb inK s = true -> forallb inK (lower e s) = true /\ lower e (lower e s) = lower e s.
+  Lemma lower_K s : Forall (lowok e) s -> forallb inK s = true ->
+    forallb inK (lower e s) = true /\ lower e (lower e s) = lower e s.
   Proof.
-    unfold lower. induction s as [|c s IH]; [split; reflexivity|]. cbn [forallb map]. intros H.
-    apply andb_prop in H. destruct H as [H1 H2]. destruct (IH H2) as [A B].
-    rewrite (lowerK e Henv c H1), A, (lower_idem e Henv c H1), B. split; reflexivity.
+    unfold lower. induction 1 as [|c s [Hc _] Hs IH]; [split; reflexivity|]. cbn [forallb map]. intros H.
+    apply andb_prop in H. destruct H as [H1 H2]. destruct (IH H2) as [A B]. destruct (Hc H1) as [C D].
+    rewrite C, A, D, B. split; reflexivity.
   Qed.
 
-  Lemma lower_L_nodot s : forallb inL s = true -> forallb (fun c => negb (N.eqb c 46)) (lower e s) = true.
+  Lemma lower_L_nodot s : Forall (lowok e) s -> forallb inL s = true ->
+    forallb (fun c => negb (N.eqb c 46)) (lower e s) = true.
   Proof.
-    unfold lower. induction s as [|c s IH]; [reflexivity|]. cbn [forallb map]. intros H.
+    unfold lower. induction 1 as [|c s [_ Hc] Hs IH]; [reflexivity|]. cbn [forallb map]. intros H.
     apply andb_prop in H. destruct H as [H1 H2]. rewrite (IH H2), andb_true_r.
-    pose proof (lowerL e Henv c H1) as HL. apply negb_true_iff. apply N.eqb_neq. intros E. rewrite E in HL.
+    pose proof (Hc H1) as HL. apply negb_true_iff. apply N.eqb_neq. intros E. rewrite E in HL.
     destruct class_facts as (_ & _ & D & _). congruence.
   Qed.
 
@@ -355,16 +383,16 @@ Section Accepted.
   Proof. intros H E. subst. rewrite text_eqb_refl in H. discriminate. Qed.
 
   (* VisitCondition *)
-  Lemma visit_condition_pre pr c v n : prop_shape pr -> In c comp_texts -> valid_codepoints v ->
+  Lemma visit_condition_pre pr c v n : Forall (lowok e) pr -> prop_shape pr -> In c comp_texts -> valid_codepoints v ->
     visit_condition e pr c v = (n, []) -> exists pt key o, n = Cond pt key o v /\ cond_pre pt key o v.
   Proof.
-    intros Hs Hc Hv H. destruct (oper_of_comp c Hc) as [Ho Hol].
+    intros Hlow Hs Hc Hv H. destruct (oper_of_comp c Hc) as [Ho Hol].
     destruct prefix_lower as (PF & PU & PD).
     unfold visit_condition in H. fold (redacted e v) in H.
     set (o := lookup_oper (lower e c)) in *.
     destruct Hs as [[Hne Hk]|(a & k & -> & Hane & Ha & Hkne & Hk)].
     - (* no prefix *)
-      destruct (lower_K pr Hk) as [HlK Hidem].
+      destruct (lower_K pr Hlow Hk) as [HlK Hidem].
       assert (Hlne : lower e pr <> []) by (destruct pr; [congruence|discriminate]).
       rewrite (split_dot_key (lower e pr) HlK) in H.
       destruct (is_attribute (lower e pr)) eqn:EA.
@@ -386,10 +414,11 @@ Section Accepted.
           -- cbn [prop_prefix]. rewrite lower_app, PF, Hidem. reflexivity.
           -- intros _. left. reflexivity.
     - (* type.key *)
-      destruct (lower_K k Hk) as [HlK Hidem].
+      apply Forall_app in Hlow. destruct Hlow as [Hlowa Hlowk]. inversion Hlowk as [|? ? _ Hlowk']; subst.
+      destruct (lower_K k Hlowk' Hk) as [HlK Hidem].
       assert (Hlne : lower e k <> []) by (destruct k; [congruence|discriminate]).
       rewrite lower_app in H. change (46%N :: k) with ([46%N] ++ k) in H. rewrite lower_app, PD in H. cbn [app] in H.
-      rewrite (split_dot_prefixed (lower e a) (lower e k) HlK (lower_L_nodot a Ha)) in H.
+      rewrite (split_dot_prefixed (lower e a) (lower e k) HlK (lower_L_nodot a Hlowa Ha)) in H.
       destruct (text_eqb (lower e a) k_fields) eqn:EF.
       + inversion H; subst. exists PField, (lower e k), o. split; [reflexivity|].
         apply mk_cond_pre; try assumption.
@@ -495,12 +524,18 @@ Section Accepted.
 
   (* what the lexer guarantees of every token *)
   Definition tok_fact (kt : token) : Prop :=
-    valid_codepoints (snd kt) /\ (fst kt = PROPERTY -> prop_shape (snd kt)) /\ (fst kt = COMPARATOR -> In (snd kt) comp_texts).
+    (valid_codepoints (snd kt) /\ Forall (lowok e) (snd kt))
+    /\ (fst kt = PROPERTY -> prop_shape (snd kt)) /\ (fst kt = COMPARATOR -> In (snd kt) comp_texts).
 
-  Lemma tok_ok_fact kt : tok_ok lexer_rules (fun c => valid_cp c = true) kt -> tok_fact kt.
+  Definition charok (c : N) : Prop := valid_cp c = true /\ lowok e c.
+
+  Lemma charok_split s : Forall charok s -> valid_codepoints s /\ Forall (lowok e) s.
+  Proof. intros H. split; (eapply Forall_impl; [|exact H]); intros c [A B]; assumption. Qed.
+
+  Lemma tok_ok_fact kt : tok_ok lexer_rules charok kt -> tok_fact kt.
   Proof.
     destruct kt as [k t]. unfold tok_ok. cbn [fst snd]. intros [Hv (ru & Hin & Hk & Hm)].
-    split; [exact Hv|]. cbn [fst snd]. split; intros K; rewrite K in Hk.
+    split; [apply charok_split; exact Hv|]. cbn [fst snd]. split; intros K; rewrite K in Hk.
     - rewrite (property_rule ru Hin Hk) in Hm. apply matches_property. exact Hm.
     - rewrite (comparator_rule ru Hin Hk), re4 in Hm. apply matches_comparator. exact Hm.
   Qed.
@@ -509,13 +544,13 @@ Section Accepted.
   Proof.
     intros ts a. induction a as [pr c lit|lit|b l IHl r IHr]; intros n Hts Hf H; cbn [visit] in H.
     - inversion Hf as [? ? ? Hp Hcm Hli| |]; subst. rewrite Forall_forall in Hts.
-      destruct (Hts _ Hp) as (_ & HP & _). destruct (Hts _ Hcm) as (_ & _ & HC). destruct (Hts _ Hli) as (HL & _).
+      destruct (Hts _ Hp) as ((_ & HLow) & HP & _). destruct (Hts _ Hcm) as (_ & _ & HC). destruct (Hts _ Hli) as ((HL & _) & _).
       destruct lit as [k t]. destruct (literal_value (k, t)) as [|v] eqn:EL; [discriminate|].
       pose proof (literal_value_valid k t v HL EL) as Hv.
       destruct (visit_condition e pr c v) as [n' errs] eqn:EV. inversion H; subst.
-      destruct (visit_condition_pre pr c v n (HP eq_refl) (HC eq_refl) Hv EV) as (pt & key & o & -> & Hc).
+      destruct (visit_condition_pre pr c v n HLow (HP eq_refl) (HC eq_refl) Hv EV) as (pt & key & o & -> & Hc).
       constructor. exact Hc.
-    - inversion Hf as [|? Hli|]; subst. rewrite Forall_forall in Hts. destruct (Hts _ Hli) as (HL & _).
+    - inversion Hf as [|? Hli|]; subst. rewrite Forall_forall in Hts. destruct (Hts _ Hli) as ((HL & _) & _).
       destruct lit as [k t]. destruct (literal_value (k, t)) as [|v] eqn:EL; [discriminate|].
       inversion H; subst. apply visit_implicit_pre. eapply literal_value_valid; eauto.
     - inversion Hf as [| |? ? ? Hfl Hfr]; subst.
@@ -548,26 +583,52 @@ Section Accepted.
   Qed.
 
   (* the text handed to the lexer *)
-  Lemma trim_left_valid s : valid_codepoints s -> valid_codepoints (trim_left s).
-  Proof. unfold valid_codepoints. induction 1 as [|c s Hc Hs IH]; cbn [trim_left]; [constructor|]. destruct (is_space c); [exact IH|constructor; assumption]. Qed.
+  Lemma trim_left_ok (Q : N -> Prop) s : Forall Q s -> Forall Q (trim_left s).
+  Proof. induction 1 as [|c s Hc Hs IH]; cbn [trim_left]; [constructor|]. destruct (is_space c); [exact IH|constructor; assumption]. Qed.
 
-  Lemma trim_valid s : valid_codepoints s -> valid_codepoints (trim s).
+  Lemma trim_ok (Q : N -> Prop) s : Forall Q s -> Forall Q (trim s).
   Proof.
-    intros H. unfold trim, valid_codepoints. apply Forall_rev. apply trim_left_valid. apply Forall_rev. apply trim_left_valid. exact H.
+    intros H. unfold trim. apply Forall_rev. apply trim_left_ok. apply Forall_rev. apply trim_left_ok. exact H.
   Qed.
 
-  Lemma preprocess_valid s : valid_codepoints s -> valid_codepoints (preprocess e s).
+  Lemma ascii_charok s : is_ascii s = true -> Forall charok s.
   Proof.
-    intros H. unfold preprocess. destruct (pe_redact e); [apply trim_valid; exact H|].
-    destruct (only_phone (trim (trim s))); [|apply trim_valid; exact H].
-    destruct (pe_phone e (trim s)) as [n|] eqn:EP; [|apply trim_valid; exact H].
-    unfold valid_codepoints. apply Forall_app. split; [repeat constructor|]. eapply phone_ok; eauto.
+    intros H. apply Forall_forall. intros c Hc. unfold is_ascii in H. rewrite forallb_forall in H.
+    split; [apply small_valid; auto|apply lowok_ascii; auto].
+  Qed.
+
+  Lemma preprocess_ok s : Forall charok s -> Forall charok (preprocess e s).
+  Proof.
+    intros H. unfold preprocess. destruct (pe_redact e); [apply trim_ok; exact H|].
+    destruct (only_phone (trim (trim s))); [|apply trim_ok; exact H].
+    destruct (pe_phone e (trim s)) as [n|] eqn:EP; [|apply trim_ok; exact H].
+    apply Forall_app. split; [apply ascii_charok; reflexivity|]. apply ascii_charok. eapply phone_ok; eauto.
+  Qed.
+
+  (* what lexer, parser and visitor hand to the validator *)
+  Lemma front_pre_tree : forall s n, valid_codepoints s -> Forall (lowok e) s -> parse_front e s = FTree n -> pre_tree n.
+  Proof.
+    intros s n Hs0 Hl0 F.
+    assert (Hs : Forall charok s).
+    { apply Forall_forall. intros c Hc. unfold valid_codepoints in Hs0. rewrite Forall_forall in Hs0, Hl0. split; auto. }
+    unfold parse_front in F.
+    destruct (cql_lex (preprocess e s)) as [ts| |] eqn:L; try discriminate.
+    destruct (parse_tokens ts) as [| |a rest] eqn:P; try discriminate.
+    destruct (visit e a) as [|n' errs] eqn:V; [discriminate|]. destruct errs; [|discriminate]. inversion F; subst n'.
+    assert (Hts : Forall tok_fact ts).
+    { unfold cql_lex in L. pose proof (lex_sound lexer_rules charok _ ts (preprocess_ok s Hs) L) as HT.
+      eapply Forall_impl; [|exact HT]. intros kt. apply tok_ok_fact. }
+    eapply visit_pre; [exact Hts|eapply parse_tokens_from; exact P|exact V].
   Qed.
 
   (* every accepted query is a valid tree *)
-  Theorem accepted_valid : forall s q, valid_codepoints s -> parse_query e s = QOk (Some q) -> valid_tree e q.
+  Theorem accepted_valid : forall s q, valid_codepoints s -> Forall (lowok e) s ->
+    parse_query e s = QOk (Some q) -> valid_tree e q.
   Proof.
-    intros s q Hs H. unfold parse_query in H.
+    intros s q Hs0 Hl0 H.
+    assert (Hs : Forall charok s).
+    { apply Forall_forall. intros c Hc. unfold valid_codepoints in Hs0. rewrite Forall_forall in Hs0, Hl0. split; auto. }
+    unfold parse_query in H.
     destruct (parse_front e s) as [| |n| |] eqn:F; try discriminate.
     destruct (conditions_valid e n) eqn:CV; [|discriminate]. inversion H as [Hq].
     apply (simplify_valid n q); [|exact Hq].
@@ -577,7 +638,7 @@ Section Accepted.
     destruct (parse_tokens ts) as [| |a rest] eqn:P; try discriminate.
     destruct (visit e a) as [|n' errs] eqn:V; [discriminate|]. destruct errs; [|discriminate]. inversion F; subst n'.
     assert (Hts : Forall tok_fact ts).
-    { unfold cql_lex in L. pose proof (lex_sound lexer_rules (fun c => valid_cp c = true) _ ts (preprocess_valid s Hs) L) as HT.
+    { unfold cql_lex in L. pose proof (lex_sound lexer_rules charok _ ts (preprocess_ok s Hs) L) as HT.
       eapply Forall_impl; [|exact HT]. intros kt. apply tok_ok_fact. }
     eapply visit_pre; [exact Hts|eapply parse_tokens_from; exact P|exact V].
   Qed.
@@ -585,9 +646,10 @@ End Accepted.
 
 (* sentence 1: whatever ParseQuery accepts formats to a text that ParseQuery turns into the same query *)
 Theorem parse_print_parse_env : forall p e s q, p 10%N = false -> env_ok e -> valid_codepoints s ->
+  Forall (lowok e) s ->
   parse_query e s = QOk (Some q) -> parse_query e (stringify p (Some q)) = QOk (Some q).
 Proof.
-  intros p e s q Hnl He Hs H. eapply parse_print_parse; [exact Hnl|exact H|].
+  intros p e s q Hnl He Hs Hl H. eapply parse_print_parse; [exact Hnl|exact H|].
   eapply accepted_valid; eauto.
 Qed.
 
@@ -597,7 +659,8 @@ Lemma ascii_lower_inK_inL : forallb (fun c => (inK c || negb (inK (ascii_lower c
                                     (map N.of_nat (seq 65 26)) = true.
 Proof. vm_compute. reflexivity. Qed.
 
-Lemma env_example_ok : forall redact, env_ok (env_example redact ascii_lower).
+Lemma env_example_ok : forall redact, env_ok (env_example redact ascii_lower)
+  /\ forall c, lowok (env_example redact ascii_lower) c.
 Proof.
   intros redact.
   assert (Hup : forall c, ascii_lower c <> c -> In c (map N.of_nat (seq 65 26))).
@@ -609,15 +672,26 @@ Proof.
     pose proof ascii_lower_inK_inL as F. rewrite forallb_forall in F. specialize (F c (Hup c Hne)).
     apply andb_prop in F. destruct F as [F F4]. apply andb_prop in F. destruct F as [F F3].
     split; intros Hc; rewrite Hc in *; cbn [negb orb] in *; assumption. }
-  constructor; cbn [env_example pe_lower pe_valid_scheme pe_urn pe_phone].
-  - intros c. apply Hcls.
-  - intros c. apply Hcls.
-  - intros c _. unfold ascii_lower. destruct ((65 <=? c) && (c <=? 90))%N eqn:E; [|rewrite E; reflexivity].
+  assert (Hidem : forall c, ascii_lower (ascii_lower c) = ascii_lower c).
+  { intros c. unfold ascii_lower. destruct ((65 <=? c) && (c <=? 90))%N eqn:E; [|rewrite E; reflexivity].
     apply andb_prop in E. destruct E as [E1 E2]. apply N.leb_le in E1. apply N.leb_le in E2.
     replace ((65 <=? c + 32) && (c + 32 <=? 90))%N with false; [reflexivity|].
-    symmetry. apply andb_false_iff. right. apply N.leb_gt. lia.
-  - reflexivity.
-  - intros k H. apply text_eqb_eq in H. subst k. split; [split; [discriminate|vm_compute; reflexivity]|reflexivity].
-  - discriminate.
-  - discriminate.
+    symmetry. apply andb_false_iff. right. apply N.leb_gt. lia. }
+  split.
+  - constructor; cbn [env_example pe_lower pe_valid_scheme pe_urn pe_phone].
+    + reflexivity.
+    + intros k H. apply text_eqb_eq in H. subst k. split; [split; [discriminate|vm_compute; reflexivity]|reflexivity].
+    + discriminate.
+    + discriminate.
+  - intros c. unfold lowok. cbn [env_example pe_lower]. destruct (Hcls c) as [A B]. split.
+    + intros Hc. split; [apply A; exact Hc|apply Hidem].
+    + exact B.
+Qed.
+
+(* the character of the known finding is exactly where the per-character hypothesis fails *)
+Lemma lowok_fails_on_cherokee : ~ lowok (env_example false cherokee_lower) 5024%N.
+Proof.
+  unfold lowok. cbn [env_example pe_lower]. intros [H _].
+  assert (K : inK 5024%N = true) by (vm_compute; reflexivity).
+  destruct (H K) as [A _]. vm_compute in A. discriminate.
 Qed.
